@@ -37,3 +37,19 @@ Theorem C16_save_overwrite_holds_exactly_new : forall (content : Type) f path (c
              forall p, ustr_eqb p path = false -> lookup p f' = lookup p f.
 Proof. exact save_overwrite_holds_exactly_new. Qed.
 Print Assumptions C16_save_overwrite_holds_exactly_new.
+
+(* container kinds carry no content: a list / tuple of numbers or strings has exactly the content of the one-dimensional
+   array (what HDF5 hands back, and what dict_to_list turns back into a list); a scalar that of the 0-d array *)
+Theorem C16_number_list_has_array_content : forall xs : list num,
+  nf_of (VList (map VNum xs)) = nf_of (VArr (ANum [length xs] xs)).
+Proof. exact number_list_has_array_content. Qed.
+Print Assumptions C16_number_list_has_array_content.
+
+Theorem C16_string_list_has_array_content : forall xs : list ustr,
+  nf_of (VList (map VStr xs)) = nf_of (VArr (AStr [length xs] xs)).
+Proof. exact string_list_has_array_content. Qed.
+Print Assumptions C16_string_list_has_array_content.
+
+Theorem C16_scalar_has_array_content : forall x : num, nf_of (VNum x) = nf_of (VArr (ANum [] [x])).
+Proof. exact scalar_has_array_content. Qed.
+Print Assumptions C16_scalar_has_array_content.
